@@ -55,6 +55,12 @@ def choose_program(ch, params):
     elif styled == "k1":
         k1 = ch.choose("key(k1)", pool, shard=True)
         k2, k3 = "beta", "value"
+    elif styled == "any1":
+        # one pool key in any of the three positions (field of the root, key that names a nested model, field of the nested model)
+        key, pos = ch.choose("key,position", [(k, p) for k in pool for p in range(3)], shard=True)
+        ks = ["alpha", "beta", "value"]
+        ks[pos] = key
+        k1, k2, k3 = ks
     else:
         k1, k2, k3 = ch.choose("keys(k1,k2,k3)", [(a, b, c) for a in pool for b in pool for c in pool if len({a, b, c}) == 3], shard=True)
     tname = ch.choose("template", templates)
